@@ -43,13 +43,13 @@ func (m *Manager) AggregationLoop(ctx context.Context, errCh chan<- error) {
 	// transactions or every LazyBlockTime.
 	if m.config.Node.LazyMode {
 		if err := m.lazyAggregationLoop(ctx, blockTimer); err != nil {
-			errCh <- fmt.Errorf("error in lazy aggregation loop: %w", err)
+			m.reportLoopError(ctx, errCh, fmt.Errorf("error in lazy aggregation loop: %w", err))
 		}
 		return
 	}
 
 	if err := m.normalAggregationLoop(ctx, blockTimer); err != nil {
-		errCh <- fmt.Errorf("error in normal aggregation loop: %w", err)
+		m.reportLoopError(ctx, errCh, fmt.Errorf("error in normal aggregation loop: %w", err))
 	}
 }
 
